@@ -25,6 +25,22 @@ func (g *Gen) specFn(fo *types.Func) string {
 		return name
 	}
 	fn := g.P.prog.FuncValue(fo)
+	if opts, ok := g.P.specOpts[fo.Pkg().Path()+"."+fo.Name()]; ok && fn != nil {
+		for _, o := range opts {
+			if o == "abstract" {
+				var ps []string
+				for _, p := range fn.Params {
+					ps = append(ps, g.sortOf(p.Type()))
+				}
+				rs := g.sortOf(fn.Signature.Results().At(0).Type())
+				g.sc.add([]string{name}, fmt.Sprintf("(declare-fun %s (%s) %s)", name, strings.Join(ps, " "), rs))
+				g.specDone[name] = true
+				g.specSrc[name] = fo
+				g.note("abstract (uninterpreted) spec function " + fo.Name())
+				return name
+			}
+		}
+	}
 	if fn == nil || !g.P.isSpec(fn) {
 		panic(cerr("%s is not a spec function (must be declared in a %s*.go file)", fo.Name(), contractPrefix))
 	}
